@@ -4,6 +4,7 @@ package main
 
 import (
 	"fmt"
+	"hash/fnv"
 	"runtime"
 	"strings"
 	"sync"
@@ -22,7 +23,7 @@ func main() { vh.Main() }
 // ---- actions and observations on mergeCollectionExcess ----
 
 type act struct {
-	Kind byte // 'S' send, 'R' recv, 'C' close
+	Kind byte // 'S' send, 'R' recv, 'C' close; 'Z' (driver only) = Recv until one finds nothing, at most C.ID times
 	C    cchange
 }
 
@@ -97,7 +98,11 @@ func (o ob) js() any {
 // the goroutine (-1: none).  The bus hands one object to every listener, so the merge stage must
 // work on its own copy (`newMessage := *(newAny.(*CollectionChange))`); the model cannot even
 // express the aliasing (its Send takes a value), so this is observed directly.
-func runMerge(acts []act) ([]ob, int) {
+func runMerge(acts []act) ([]act, []ob, int) {
+	// expand the pseudo-action 'Z' (drain) as it is executed: the returned action list has one
+	// Recv per observation
+	done := make([]act, 0, len(acts))
+	queue := append([]act(nil), acts...)
 	p := startPipe(resource.VerifMergeCollectionExcess, "mergeCollectionExcess", "VerifMergeCollectionExcess")
 	obs := make([]ob, 0, len(acts))
 	type sentObj struct {
@@ -106,10 +111,27 @@ func runMerge(acts []act) ([]ob, int) {
 		want cchange
 	}
 	var sentObjs []sentObj
-	for ai, a := range acts {
+	for len(queue) > 0 {
+		a := queue[0]
+		queue = queue[1:]
 		if n := len(obs); n > 0 && (obs[n-1].Kind == 'b' || obs[n-1].Kind == 'k') {
-			break // stuck: every further action would only wait again; the shorter observation list is judged as a failure
+			// stuck: every further action would only wait again; the shorter observation list is judged as a failure
+			for _, r := range append([]act{a}, queue...) {
+				if r.Kind != 'Z' {
+					done = append(done, r)
+				}
+			}
+			break
 		}
+		if a.Kind == 'Z' {
+			if n := len(obs); a.C.ID <= 0 || (n > 0 && len(done) > 0 && done[len(done)-1].Kind == 'R' && obs[n-1].Kind != 'g') {
+				continue // the previous Recv of this drain found nothing (or the channel closed): drained
+			}
+			queue = append([]act{{Kind: 'R'}, {Kind: 'Z', C: cchange{ID: a.C.ID - 1}}}, queue...)
+			continue
+		}
+		ai := len(done)
+		done = append(done, a)
 		switch a.Kind {
 		case 'S':
 			if p.closed {
@@ -155,7 +177,7 @@ func runMerge(acts []act) ([]ob, int) {
 			break
 		}
 	}
-	return obs, mutated
+	return done, obs, mutated
 }
 
 // ---- DropExcess ----
@@ -450,9 +472,10 @@ func min64(a, b int64) int64 {
 func addMergeCases(o *vcoq.Out, seqs [][]act, tag string) {
 	results := make([][]ob, len(seqs))
 	mutated := make([]int, len(seqs))
+	seqs = append([][]act(nil), seqs...)
 	parallel(len(seqs), func(i int) {
 		if !tooMuchTrouble() {
-			results[i], mutated[i] = runMerge(seqs[i])
+			seqs[i], results[i], mutated[i] = runMerge(seqs[i])
 		}
 	})
 	nmut := 0
@@ -506,11 +529,76 @@ func addMergeCases(o *vcoq.Out, seqs [][]act, tag string) {
 		o.Add(vcoq.Case{
 			Coq:        "KMerge " + coqActs(acts) + " " + coqObs(obs),
 			JSON:       map[string]any{"kind": "mergeCollectionExcess", "actions": ja, "observed": jo},
-			Key:        "m:" + shape(acts),
+			Key:        "m:" + shapeKey(acts),
 			NonTrivial: nsent >= 2,
 			Tags:       tags,
 		})
 	}
+}
+
+// the shape of a long sequence is abbreviated (length + hash): the key only counts distinct cases
+func shapeKey(acts []act) string {
+	sh := shape(acts)
+	if len(sh) <= 200 {
+		return sh
+	}
+	h := fnv.New64a()
+	h.Write([]byte(sh))
+	return fmt.Sprintf("%s..len%d:%x", sh[:40], len(acts), h.Sum64())
+}
+
+// ---- the size dimension ----
+//
+// A capacity limit inside the stage (a bounded map, a bounded queue, "hand over the oldest before
+// taking more") is invisible over a small id alphabet: changes to the same ids merge and never grow
+// the backlog.  bigBurst builds a valid script that leaves exactly n DIFFERENT ids with a pending
+// change while the consumer takes nothing (or very little): ids 0..n-1 are added, a fifth of them
+// also updated (merges into the pending ADD), a twentieth removed and added again; n/5 further ids
+// are added and removed (cancels: they take no room at the end but do in between); the per-id
+// scripts are interleaved uniformly at random.  recvPct > 0 sprinkles a few receives in between
+// (a reader that is slow, not dead).  The sequence ends with a drain.
+func bigBurst(r *vcoq.Rand, n int, recvPct int) []act {
+	type idq struct {
+		id  int64
+		ops []byte
+	}
+	var qs []idq
+	for id := 0; id < n; id++ {
+		ops := []byte{'a'}
+		switch {
+		case r.Chance(20):
+			ops = append(ops, 'u')
+		case r.Chance(6):
+			ops = append(ops, 'd', 'a')
+		}
+		qs = append(qs, idq{int64(id), ops})
+	}
+	for id := n; id < n+n/5; id++ {
+		qs = append(qs, idq{int64(id), []byte{'a', 'd'}})
+	}
+	var tokens []int
+	for k, q := range qs {
+		for range q.ops {
+			tokens = append(tokens, k)
+		}
+	}
+	for i := len(tokens) - 1; i > 0; i-- { // Fisher-Yates
+		j := r.Intn(i + 1)
+		tokens[i], tokens[j] = tokens[j], tokens[i]
+	}
+	s := newSState()
+	var out []act
+	for _, k := range tokens {
+		q := &qs[k]
+		out = append(out, s.emit(q.id, q.ops[0]))
+		q.ops = q.ops[1:]
+		if recvPct > 0 && r.Chance(recvPct) {
+			out = append(out, act{Kind: 'R'})
+		}
+	}
+	// drain: Recv until one finds nothing (at most one per id ever touched, plus one)
+	out = append(out, act{Kind: 'Z', C: cchange{ID: int64(len(qs) + 1)}})
+	return out
 }
 
 func addDropCases(o *vcoq.Out, seqs [][]dact, tag string) {
@@ -674,6 +762,17 @@ func genC09(o *vcoq.Out, r *vcoq.Rand, tier string) error {
 	}
 	addMergeCases(o, seqs, "merge:random-valid")
 
+	// ---- 3b. the size dimension: 600..2000 different ids pending at once ----
+	seqs = nil
+	sizes := []int{r.Range(600, 700), r.Range(1000, 1300), r.Range(1800, 2100)}
+	if thorough {
+		sizes = append(sizes, r.Range(600, 2000), r.Range(2500, 4200), r.Range(700, 1100), r.Range(1300, 1800))
+	}
+	for _, n := range sizes {
+		seqs = append(seqs, bigBurst(r, n, 0), bigBurst(r, n, []int{1, 3, 10}[r.Intn(3)]))
+	}
+	addMergeCases(o, seqs, "merge:size")
+
 	// ---- 4. wild scripts (outside the guard) ----
 	nwild := 600
 	if thorough {
@@ -728,6 +827,11 @@ func genC09(o *vcoq.Out, r *vcoq.Rand, tier string) error {
 
 	// ---- 8. public API ----
 	if err := genAPI(o, r, thorough); err != nil {
+		return err
+	}
+
+	// ---- 9. where the stages can block, read from the source ----
+	if err := genSrc(o); err != nil {
 		return err
 	}
 	o.Extra["coverage_extra"] = map[string]any{
